@@ -38,6 +38,9 @@ def plan(tier, seed):
     for c in base:
         if len(c["rules"]) <= 3 or c["name"].startswith("sharp"):
             cases.append(dict(c, mode="signed"))
+    for c in base:
+        if 1 <= len(c["rules"]) <= 2 or c["name"].startswith("sharp"):
+            cases.append(dict(c, mode="nc"))
     nchain = 0
     for c in base:
         if len(c["rules"]) <= p["chain_depth"] or c["name"].startswith("sharp"):
@@ -54,6 +57,8 @@ def plan(tier, seed):
             "(trim, cotrim, binarize, separate_start, separate_terminals, nullaryremove x4 flag combinations, unaryremove, unarycycleremove x2, cnf, renumber, rename by every injective map into a 3-name pool, "
             f"unfold(i,k) for every rule and nonterminal position) is applied and the OUTPUT grammar is evaluated on every string <= {p['maxlen']} by the naive fixed point R2 (not by the library's parsers) "
             f"and compared with the derivation enumerator's table of the input; chain mode: every ordered pair of {len(xforms.CHAIN)} transformations (non-initial states). "
+            "nc mode: weights are free NON-commuting indeterminates (NCPoly), derivation weight = product in leftmost-derivation order; applied to the transformations that keep every factor in place "
+            f"({', '.join(NC_XFORMS)}; nullary removal, cnf and unfold commute factors by construction and are not in this pass). "
             "non-trivial = the input grammar has a string of non-zero weight within the bound"
         ),
         "bounds": p,
@@ -91,6 +96,12 @@ def run_single(case):
         r["evals"] += r2["evals"]
         r["fails"] += r2["fails"]
         r["counters"]["executions"] += r2["counters"]["executions"]
+    if len(case["rules"]) <= 2 or case["name"].startswith("sharp"):
+        r2 = _run_single(case, None, fresh=True)
+        r["evals"] += r2["evals"]
+        r["fails"] += r2["fails"]
+        r["counters"]["executions"] += r2["counters"]["executions"]
+        r["counters"]["fresh_object_names"] = 1
     var_of = gram.shared_vars(case_rules(case))
     if var_of is not None:
         # duplicate rules that are equal BY VALUE (same weight), as with numeric weights
@@ -149,7 +160,7 @@ def run_signed(case):
     return {"evals": evals, "nontrivial": 1, "fails": fails, "counters": {"executions": evals}}
 
 
-def _run_single(case, var_of, order=None):
+def _run_single(case, var_of, order=None, fresh=False):
     p = cfgp()
     rules = case_rules(case)
     V = case_terms(case)
@@ -162,10 +173,15 @@ def _run_single(case, var_of, order=None):
     W0 = gram.poly_weights(len(rules)) if var_of is None else [Poly.var(v) for v in var_of]
     if order is not None:
         inp0["rule_order"] = "reversed"
-    g0 = gram.build(rules, Poly, W0, V=V, order=order)
+    ren = None
+    if fresh:
+        # every occurrence of a nonterminal is an equal but NOT identical object
+        ren = gram.FreshNames({"S"} | {h for h, _ in rules} | {y for _, b in rules for y in b if y not in V})
+        inp0["names"] = repr(ren)
+    g0 = gram.build(rules, Poly, W0, V=V, order=order, rename=ren)
     for name, _ in xforms.transformations(g0):
         # a fresh object per transformation: no cached state is shared between them
-        g = gram.build(rules, Poly, W0, V=V, order=order)
+        g = gram.build(rules, Poly, W0, V=V, order=order, rename=ren)
         thunk = dict(xforms.transformations(g))[name]
         try:
             out = thunk()
@@ -212,5 +228,55 @@ def run_chain(case):
     return {"evals": evals, "nontrivial": int(nontriv), "fails": fails, "counters": {"executions": nx, "chains_applied": nx}}
 
 
+NC_XFORMS = ("trim", "cotrim", "binarize", "separate_start", "separate_terminals", "rename", "renumber", "unaryremove", "unarycycleremove")
+
+
+def run_nc(case):
+    """Free NON-commuting weights: the order of the factors of a derivation's weight (leftmost-derivation
+    order: a rule's weight, then its children left to right) is observable."""
+    from vf.semirings import NCPoly
+
+    NCPoly.D = cfgp()["D"]
+    rules = case_rules(case)
+    V = case_terms(case)
+    W = [NCPoly.var(i) for i in range(len(rules))]
+    wr = [(w, h, b) for w, (h, b) in zip(W, rules)]
+    strs = list(strings_upto(sorted(V), 3 if len(V) <= 2 else 2))
+    try:
+        want = {x: ref_weight(wr, "S", V, NCPoly, x, maxit=60) for x in strs}
+    except NoConvergence:
+        return {"evals": 0, "nontrivial": 0, "fails": [], "counters": {"nc_skipped": 1}}
+    fails = []
+    evals = 0
+    nx = 0
+    g0 = gram.build(rules, NCPoly, W, V=V)
+    for name, _ in xforms.transformations(g0):
+        if name.split("(")[0] not in NC_XFORMS:
+            continue
+        g = gram.build(rules, NCPoly, W, V=V)
+        pred = f"{name.split('(')[0]} preserves the weighted language (non-commutative weights)"
+        inp = {"rules": case["rules"], "transformation": name, "semiring": "NCPoly"}
+        try:
+            out = dict(xforms.transformations(g))[name]()
+        except CaseTimeout:
+            raise
+        except Exception as e:  # noqa: BLE001
+            fails.append(_fail(pred, inp, f"EXC {type(e).__name__}: {e}", "grammar"))
+            continue
+        nx += 1
+        orules = rules_of(out)
+        for x in strs:
+            try:
+                have = ref_weight(orules, out.S, out.V, NCPoly, x, maxit=60)
+            except NoConvergence:
+                have = "diverges"
+            evals += 1
+            if isinstance(have, str) or have != want[x]:
+                fails.append(_fail(pred, dict(inp, x=list(x)), have, want[x]))
+                break
+    nontriv = any(w != NCPoly.zero for w in want.values())
+    return {"evals": evals, "nontrivial": int(nontriv), "fails": fails, "counters": {"executions": nx, "nc_transformations_applied": nx}}
+
+
 def run_case(case):
-    return {"single": run_single, "chain": run_chain, "signed": run_signed}[case["mode"]](case)
+    return {"single": run_single, "chain": run_chain, "signed": run_signed, "nc": run_nc}[case["mode"]](case)
